@@ -946,7 +946,7 @@ impl NamePool {
                 5 => ("N", "N", false),
                 _ => ("I", "T", false),
             };
-            let k = if rev { 9 - i.min(9) } else { i };
+            let k = if rev { 29 - i.min(29) } else { i };
             if self.style == 5 {
                 format!("N{k}{}", if iface { "a" } else { "b" })
             } else if iface {
